@@ -28,7 +28,8 @@ class FloorSTE(torch.autograd.Function):
     """Torch autograd function that turns a number of channels ch into its next integer multiple of N"""
     @staticmethod
     def forward(ctx, ch, N):
-        return torch.floor((ch + N - 1) / N)
+        # ch is a plain number for layers that are not optimized (full_cost)
+        return torch.floor(torch.as_tensor((ch + N - 1) / N))
 
     @staticmethod
     def backward(ctx, grad_output):
